@@ -30,7 +30,7 @@ ORIGINS = [(0.0, 0.0), (1.5, -2.0), (-0.3, 0.7)]
 
 SEL_INVARIANTS = ["SelNonEmpty", "SelCorners", "SelSeparable", "SelTiesOnCentreLines", "SelCodeShapeAgrees",
                   "SelCodeCentreClose", "SelIndexing", "SelBorderSandwich"]
-REL_INVARIANTS = ["RelNeverOutward", "RelWithinFarthestBorder", "RelInteriorUntouched", "RelMovedStrictlyInward",
+REL_INVARIANTS = ["RelTranslationInvariant", "RelScaleCovariant", "RelNeverOutward", "RelWithinFarthestBorder", "RelInteriorUntouched", "RelMovedStrictlyInward",
                   "RelBorderPointsFixed", "RelDeterministicWithoutTies", "RelOutcomeExists"]
 
 SEL_CFG = """CONSTANTS
@@ -261,9 +261,11 @@ def select_record(inst, seed=0, geom=None, form=None):
     return rec
 
 
-def alpha_relocated(P, p, out, B, tick):
-    """alpha for relocated coordinates.  P: integer lattice inputs (N,2); p: the float inputs; out: the float results;
-    B: integer border points.  Returns rows [same, Ry, Rx, F] with R = round(F * (n * out/tick - sum(B)))."""
+def alpha_relocated(P, p, out, B, tick, O=(0, 0)):
+    """alpha for relocated coordinates.  P: integer lattice inputs (N,2), UNtranslated; p: the float inputs as handed to the
+    call (translated by O ticks); out: the float results; B: integer border points (untranslated).  Returns rows
+    [same, Ry, Rx, F] with R = round(F * (n * (out/tick - O) - sum(B))): the result is taken back into the untranslated frame
+    (out/tick - O is exact up to the granularity of `out` itself), so one expectation serves every translation and scale."""
     n = len(B)
     sb = B.sum(axis=0)
     q = n * P - sb
@@ -272,7 +274,7 @@ def alpha_relocated(P, p, out, B, tick):
         raise core.MachineryError("driver produced a relocation instance beyond the fixed-point range")
     F = np.clip(LIMIT // np.maximum(np.maximum(np.abs(q).max(axis=1), mb), 1), 1, FMAX)
     with np.errstate(all="ignore"):
-        R = F[:, None] * (n * (out / tick) - sb)
+        R = F[:, None] * (n * (out / tick - np.asarray(O, dtype=float)) - sb)
         R = np.where(np.isfinite(R), R, CLAMP)
         R = np.clip(np.rint(R), -CLAMP, CLAMP).astype(np.int64)
     same = (np.ascontiguousarray(out).view(np.int64) == np.ascontiguousarray(p).view(np.int64)).all(axis=1)
@@ -285,7 +287,45 @@ def alpha_relocated(P, p, out, B, tick):
 # mesh vertices only: the data grid is fancy-indexed by the library); "f32-*": float32.
 REPS_F64 = ("f64-irregular", "f64-ndarray")
 _OLD_CONTAINER = {"irregular": "f64-irregular", "ndarray": "f64-ndarray"}
-DYADIC_TICKS = (1.0, 0.5, 2.0 ** -6, 16.0)
+DYADIC_TICKS = (1.0, 0.5, 2.0 ** -6, 16.0, 2.0 ** -20, 2.0 ** 20, 2.0 ** -11, 2.0 ** 9)
+NO_OFFSET = (0, 0, 0)
+MAX_OFFSET_EXP = 30
+
+
+def offset_ticks(off):
+    """off = (ky, kx, e): the translation (ky * 2^e, kx * 2^e) in ticks."""
+    ky, kx, e = (int(v) for v in off)
+    return np.array([ky * 2 ** e, kx * 2 ** e], dtype=np.int64)
+
+
+def max_offset_exp(G, sbs, P=None):
+    """Largest e such that a translation of the whole instance by up to 3 * 2^e ticks keeps every decision of a float64
+    implementation that forms coordinate differences exact: the rounding of the centroid (<= 4 * 2^(e+2-53) ticks, generous)
+    must stay 16x below the smallest possible gap between two different radii, 1 / (2 n * max(n r)) ticks."""
+    n = len(sbs)
+    sb = G[sbs].sum(axis=0)
+    pts = G if P is None else np.concatenate([G, P])
+    nr = float(np.sqrt(max(1, int(((n * pts - sb) ** 2).sum(axis=1).max()))))
+    gap = 1.0 / (2.0 * n * nr)
+    return int(min(MAX_OFFSET_EXP, np.floor(np.log2(gap)) + 43))
+
+
+def pick_offset(rng, G, sbs, P=None, share=0.4):
+    """A translation for this instance (or none): k * 2^e ticks per axis with e up to the exact range of the instance."""
+    if rng.random() >= share:
+        return NO_OFFSET
+    emax = max_offset_exp(G, sbs, P)
+    if emax < 8:
+        return NO_OFFSET
+    e = int(emax - rng.integers(0, 4)) if rng.random() < 0.7 else int(rng.integers(8, emax + 1))
+    ky, kx = (int(v) for v in rng.integers(-3, 4, size=2))
+    if ky == 0 and kx == 0:
+        ky = 1
+    return (ky, kx, e)
+
+
+def pick_dyadic_tick(rng):
+    return DYADIC_TICKS[int(rng.integers(0, len(DYADIC_TICKS)))]
 F32_MAX_N2 = 20000  # float32 keeps every exact decision only while squared magnified radii stay this small (gap >= 5e-5)
 
 
@@ -321,14 +361,14 @@ def represent(rep, a_int, tick, role="grid"):
     raise core.MachineryError(f"unknown representation {rep}")
 
 
-def alternative_reps(call, G, sbs, tick, P=None):
+def alternative_reps(call, G, sbs, tick, P=None, off=NO_OFFSET):
     """The non-float64 representations in which this instance can be realised exactly."""
     reps = []
     if float(tick) == int(tick) and tick >= 1:
         reps += ["i64-ndarray", "int-irregular"]
         if P is not None and call == "relocated_mesh_grid_from":
             reps.append("int-list")
-    if tick in DYADIC_TICKS and len(sbs):
+    if tick in DYADIC_TICKS and len(sbs) and tuple(off)[:2] == (0, 0) and 2.0 ** -12 <= tick <= 2.0 ** 12:
         B = G[sbs]
         n, sb = len(B), B.sum(axis=0)
         pts = G if P is None else np.concatenate([G[sbs], P])
@@ -342,8 +382,9 @@ CALLS = ("relocated_grid_from", "mapper_grids_rectangular", "relocated_mesh_grid
 
 
 def reloc_record(call, mask_spec, sub, form, grid_int, tick, pts_int=None, container=None, br=None, hist=0,
-                 prefix=None, rep=None):
-    """One 'relocate' record: run the real entry point `call` on the lattice data grid (and mesh points).
+                 prefix=None, rep=None, off=NO_OFFSET):
+    """One 'relocate' record: run the real entry point `call` on the lattice data grid (and mesh points), all coordinates
+    translated by off = (ky, kx, e) -> (ky, kx) * 2^e ticks and scaled by the tick.
     `br`: an existing relocator instance to be REUSED (history of `hist` earlier calls, listed in `prefix` for replay)."""
     import autoarray as aa
 
@@ -356,15 +397,18 @@ def reloc_record(call, mask_spec, sub, form, grid_int, tick, pts_int=None, conta
            "form": form, "tick": tick, "container": container, "grid": G.tolist(), "bidx": [], "own": pts_int is None,
            "pts": [] if pts_int is None else np.asarray(pts_int, dtype=np.int64).reshape(-1, 2).tolist(),
            "out": [], "raised": False, "hist": int(hist), "lat": all(int(x) in (1, 2, 3, 4, 6, 12) for x in sub),
-           "prefix": prefix or []}
+           "prefix": prefix or [], "off": [int(v) for v in off]}
+    O = offset_ticks(off)
+    if (O != 0).any() and tick not in DYADIC_TICKS:
+        raise core.MachineryError("translated instances need a dyadic tick")
     try:
         if br is None:
             br = _relocator(mask, sub, form)
         sbs = np.asarray(br.sub_border_slim).astype(int).ravel()
         rec["bidx"] = [int(x) for x in sbs]
-        g = G.astype(float) * tick
+        g = (G + O).astype(float) * tick
         # the data grid and the mesh vertices in the representation of this record (same coordinates in all of them)
-        gwrap = lambda: represent(rep, G, tick, role="grid")
+        gwrap = lambda: represent(rep, G + O, tick, role="grid")
         if pts_int is None:
             P, p = G, g
             if call == "relocated_grid_from":
@@ -380,13 +424,13 @@ def reloc_record(call, mask_spec, sub, form, grid_int, tick, pts_int=None, conta
                 raise core.MachineryError(f"unknown call {call}")
         else:
             P = np.asarray(pts_int, dtype=np.int64).reshape(-1, 2)
-            p = P.astype(float) * tick
+            p = (P + O).astype(float) * tick
             if call == "relocated_mesh_grid_from":
-                out = br.relocated_mesh_grid_from(grid=gwrap(), mesh_grid=represent(rep, P, tick, role="mesh"))
+                out = br.relocated_mesh_grid_from(grid=gwrap(), mesh_grid=represent(rep, P + O, tick, role="mesh"))
             elif call in ("mapper_grids_delaunay", "mapper_grids_voronoi"):
                 mesh = aa.mesh.Delaunay() if call.endswith("delaunay") else aa.mesh.Voronoi()
                 out = mesh.mapper_grids_from(mask=mask, source_plane_data_grid=gwrap(), border_relocator=br,
-                                             source_plane_mesh_grid=represent(rep, P, tick, role="mesh")).source_plane_mesh_grid
+                                             source_plane_mesh_grid=represent(rep, P + O, tick, role="mesh")).source_plane_mesh_grid
             else:
                 raise core.MachineryError(f"unknown call {call}")
         out = np.asarray(out, dtype=float)
@@ -397,7 +441,7 @@ def reloc_record(call, mask_spec, sub, form, grid_int, tick, pts_int=None, conta
         elif len(sbs) == 0:
             raise core.MachineryError("driver used a mask with an empty border for relocation")
         else:
-            rec["out"] = alpha_relocated(P, p, out, G[sbs], tick)
+            rec["out"] = alpha_relocated(P, p, out, G[sbs], tick, O)
     except core.MachineryError:
         raise
     except Exception as ex:
@@ -451,8 +495,11 @@ def bag_records(args):
         else:
             args_ = ("relocated_grid_from", mask_spec, sub, "ndarray", G, tick, None, "f64-ndarray")
         call, ms, sb_, fm, GG, tk, PP, rep0 = args_
-        for rep in [rep0] + alternative_reps(call, GG, sbs, tk, PP):  # the same instance in every exact representation
-            out.append(reloc_record(call, ms, sb_, fm, GG, tk, pts_int=PP, rep=rep))
+        off = pick_offset(rng, GG, sbs, PP)  # a share of the instances far from the origin (and at extreme scales)
+        if off != NO_OFFSET or rng.random() < 0.25:
+            tk = pick_dyadic_tick(rng)
+        for rep in [rep0] + alternative_reps(call, GG, sbs, tk, PP, off):  # the same instance in every exact representation
+            out.append(reloc_record(call, ms, sb_, fm, GG, tk, pts_int=PP, rep=rep, off=off))
     return out
 
 
@@ -552,8 +599,11 @@ def random_relocation_records(args):
         tick = pick_tick(rng)
         spec = (h, w, u)
         calls = ["relocated_grid_from", "mapper_grids_rectangular", "mapper_grids_delaunay", "relocated_grid_from"]
-        for rep in ["f64-irregular" if k % 4 else "f64-ndarray"] + alternative_reps(calls[k % 4], P, sbs, tick):
-            out.append(reloc_record(calls[k % 4], spec, sub, form, P, tick, rep=rep))
+        off = pick_offset(rng, P, sbs)
+        if off != NO_OFFSET or rng.random() < 0.25:
+            tick = pick_dyadic_tick(rng)
+        for rep in ["f64-irregular" if k % 4 else "f64-ndarray"] + alternative_reps(calls[k % 4], P, sbs, tick, None, off):
+            out.append(reloc_record(calls[k % 4], spec, sub, form, P, tick, rep=rep, off=off))
         # mesh vertices: inside, far outside, copies of border and of interior data points
         nm = int(rng.integers(3, 25))
         if N <= 80 and k % 2 == 0:
@@ -565,8 +615,11 @@ def random_relocation_records(args):
         mcall = ["relocated_mesh_grid_from", "mapper_grids_delaunay", "mapper_grids_voronoi"][k % 3]
         if len({tuple(x) for x in Pm.tolist()}) < 4:
             mcall = "relocated_mesh_grid_from"  # triangulations need distinct vertices
-        for rep in ["f64-irregular"] + alternative_reps(mcall, P, sbs, tick, Pm):
-            out.append(reloc_record(mcall, spec, sub, form, P, tick, pts_int=Pm, rep=rep))
+        off = pick_offset(rng, P, sbs, Pm)
+        if off != NO_OFFSET and tick not in DYADIC_TICKS:
+            tick = pick_dyadic_tick(rng)
+        for rep in ["f64-irregular"] + alternative_reps(mcall, P, sbs, tick, Pm, off):
+            out.append(reloc_record(mcall, spec, sub, form, P, tick, pts_int=Pm, rep=rep, off=off))
     return out
 
 
@@ -630,16 +683,24 @@ def history_records(args):
         for g in sorted({g for _, g in hist}):
             A, d, t = HIST_MAPS[(g - 1) % len(HIST_MAPS)]
             P = (base @ A.T) // d + np.array(t) + rng.integers(-6, 7, size=base.shape)
-            grids[g] = (_special_points(rng, P, sbs), pick_tick(rng))
+            P = _special_points(rng, P, sbs)
+            off = pick_offset(rng, P, sbs, None, share=0.5)
+            emax = max_offset_exp(P, sbs) - 3  # mesh vertices reach further out than the data grid: keep a margin
+            if off != NO_OFFSET and off[2] > emax:
+                off = (off[0], off[1], max(emax, 0))
+            grids[g] = (P, pick_dyadic_tick(rng) if off != NO_OFFSET or rng.random() < 0.25 else pick_tick(rng), off)
         prefix = []
         for k, (op, g) in enumerate(hist):
-            P, tick = grids[g]
+            P, tick, off = grids[g]
             call = HIST_OPS[op]
             M = _mesh_points(rng, P, sbs, int(rng.integers(6, 16))) if op in ("M", "D") else None
-            reps = ["f64-irregular", "f64-ndarray"] + 2 * alternative_reps(call, P, sbs, tick, M)
+            off_k = off if (M is None or off == NO_OFFSET or off[2] <= max_offset_exp(P, sbs, M)) else NO_OFFSET
+            reps = ["f64-irregular", "f64-ndarray"] + 2 * alternative_reps(call, P, sbs, tick, M, off_k)
             rep = reps[int(rng.integers(0, len(reps)))]
-            out.append(reloc_record(call, spec, sub, form, P, tick, pts_int=M, br=br, hist=k, prefix=list(prefix), rep=rep))
-            prefix.append({"call": call, "grid": P.tolist(), "tick": tick, "pts": None if M is None else M.tolist(), "rep": rep})
+            out.append(reloc_record(call, spec, sub, form, P, tick, pts_int=M, br=br, hist=k, prefix=list(prefix), rep=rep,
+                                    off=off_k))
+            prefix.append({"call": call, "grid": P.tolist(), "tick": tick, "pts": None if M is None else M.tolist(), "rep": rep,
+                           "off": list(off_k)})
     return out
 
 
@@ -660,7 +721,7 @@ def validate(ctx, records, tag, chunk_sel=4000, chunk_rel=100):
     rel = [r for r in records if r["api"] != "select"]
     chunks = [sel[k: k + chunk_sel] for k in range(0, len(sel), chunk_sel)]
     chunks += [rel[k: k + chunk_rel] for k in range(0, len(rel), chunk_rel)]
-    keep = ("api", "id", "h", "w", "u", "sub", "sbs", "sbg", "bslim", "call", "grid", "bidx", "own", "pts", "out", "raised", "hist", "lat", "rep")
+    keep = ("api", "id", "h", "w", "u", "sub", "sbs", "sbg", "bslim", "call", "grid", "bidx", "own", "pts", "out", "raised", "hist", "lat", "rep", "off")
     rejects = []
 
     def one(a):
@@ -678,7 +739,7 @@ def validate(ctx, records, tag, chunk_sel=4000, chunk_rel=100):
             what = (f"sub_border_slim/sub_border_grid on {rec['h']}x{rec['w']} mask u={rec['u']} sub={rec['sub']} "
                     f"geom={rec['geom']}: got sbs={rec['sbs']}; failed {rj['clauses']}")
         else:
-            what = (f"{rec['call']} [{rec.get('rep')}] (call #{rec.get('hist', 0) + 1} on this relocator instance) on {rec['h']}x{rec['w']} mask u={rec['u']} sub={rec['sub'][:8]}.. tick={rec['tick']} "
+            what = (f"{rec['call']} [{rec.get('rep')}, translated by {rec.get('off', [0, 0, 0])[:2]} * 2^{rec.get('off', [0, 0, 0])[2]} ticks] (call #{rec.get('hist', 0) + 1} on this relocator instance) on {rec['h']}x{rec['w']} mask u={rec['u']} sub={rec['sub'][:8]}.. tick={rec['tick']} "
                     f"({len(rec['grid'])} grid points, {len(rec['bidx'])} border points): failed {rj['clauses']}; "
                     f"{rec.get('error', '')} want={str(rj.get('want'))[:400]}")
         ctx.violation(rj["sig"], what, {"record": rec, "failed_clauses": rj["clauses"], "spec_wanted": rj.get("want")},
@@ -794,11 +855,12 @@ def replay(ctx, rp):
             br = _relocator(_mask_of(*spec), rec["sub"], rec["form"])
             for k, c in enumerate(rec["prefix"]):
                 reloc_record(c["call"], spec, rec["sub"], rec["form"], np.array(c["grid"]), c["tick"],
-                             pts_int=None if c["pts"] is None else np.array(c["pts"]), br=br, hist=k, rep=c.get("rep"))
+                             pts_int=None if c["pts"] is None else np.array(c["pts"]), br=br, hist=k, rep=c.get("rep"),
+                             off=tuple(c.get("off", NO_OFFSET)))
         recs = [reloc_record(rec["call"], spec, rec["sub"], rec["form"], np.array(rec["grid"]), rec["tick"],
                              pts_int=None if rec["own"] else np.array(rec["pts"]),
                              container=rec.get("container", "irregular"), rep=rec.get("rep"), br=br,
-                             hist=len(rec.get("prefix") or []), prefix=rec.get("prefix"))]
+                             hist=len(rec.get("prefix") or []), prefix=rec.get("prefix"), off=tuple(rec.get("off", NO_OFFSET)))]
     rej = validate(ctx, recs, "C18-replay")
     print("replayed", len(recs), "record(s); rejected:", [r["clauses"] for r in rej])
     return ctx.finish()
